@@ -537,6 +537,12 @@ def _seq_init_order(fn: ast.FunctionDef) -> list[str]:
     def visit(stmts, guard=None):
         for st in stmts:
             if isinstance(st, ast.If):
+                t = st.test
+                if (isinstance(t, ast.Compare) and len(t.ops) == 1 and isinstance(t.ops[0], ast.Is)
+                        and ast.unparse(t.comparators[0]) == "None" and len(st.body) == 1 and isinstance(st.body[0], ast.Assign)
+                        and ast.unparse(st.body[0].targets[0]) == ast.unparse(t.left) and not st.orelse):
+                    out.append(f"default: {ast.unparse(t.left)}={ast.unparse(st.body[0].value)}")
+                    continue
                 visit(st.body, ast.unparse(st.test))
                 visit(st.orelse, "not " + ast.unparse(st.test))
                 continue
